@@ -29,6 +29,9 @@ ASSUMPTIONS = [
     'QRCode.show() and write_terminal_win are not simulated (no property covers them)',
 ]
 STEP_BUDGET = {'quick': 40_000_000, 'thorough': 400_000_000}
+PROBE_FUNCS = ('find_and_apply_best_mask', 'apply_mask', 'make_blocks', 'make_final_message', 'add_codewords', 'make_matrix',
+               'write_png', 'write_ppm', 'write_svg', 'write_pdf', 'write_pbm', 'write_pam', '_make_colormap', 'writable',
+               'matrix_iter', 'matrix_iter_verbose', 'matrix_to_lines', 'add_segment', 'make_segment', 'encode_sequence', 'save', 'wrapper')
 _MODULES = ('segno', 'segno.encoder', 'segno.consts', 'segno.writers', 'segno.utils', 'segno.cli', 'segno.helpers')
 _DATA_TYPES = (dict, list, tuple, set, frozenset, bytes, bytearray, str, int, float, bool, type(None))
 
@@ -154,7 +157,8 @@ def gen_scenario(batch_seed, i, tier):
         for _ in range(rng.randint(1, 3)):
             t = rng.randrange(nthreads)
             faults.append({'kind': rng.weighted([('abort', 5), ('memerr', 3), ('clock', 2)]), 'thread': t,
-                           'op': rng.randrange(len(threads[t])), 'step': int(10 ** rng.uniform(0, 4.9)) * (5 if gran == 'instr' else 1),
+                           'op': rng.randrange(len(threads[t])),
+                           'step': (int(10 ** rng.uniform(0, 4.9)) if rng.random() < 0.5 else rng.randint(1, 70000)) * (5 if gran == 'instr' else 1),
                            'delta': rng.choice((1, 3600, -86400, 10 ** 7))})
     sink_faults = []
     if rng.random() < 0.15:
@@ -296,6 +300,16 @@ def execute(sc):
         'policy': {sc['policy']['kind'] if sc['trace'] else 'sequential-history': 1},
         'new_module_attrs': {'max': stats['new_module_attrs']},
     })
+    # "this rare condition was hit" probes: pre-emptions and injected faults that landed inside functions holding in-flight state
+    probe_pre = counters.setdefault('preempted_inside', {})
+    for (_, _, _, where) in S.log:
+        if where and where[0] in PROBE_FUNCS:
+            probe_pre[where[0]] = probe_pre.get(where[0], 0) + 1
+    probe_ab = counters.setdefault('fault_landed_inside', {})
+    for f in S.fired:
+        fn = f['where'][0]
+        if fn in PROBE_FUNCS:
+            probe_ab[fn] = probe_ab.get(fn, 0) + 1
     for f in S.fired:
         counters['faults_fired'][f['kind']] = counters['faults_fired'].get(f['kind'], 0) + 1
     for f in w.plan.fired:
